@@ -19,6 +19,7 @@ from sim import core
 
 REPO_PREFIX = core.REPO_SRC.rstrip("/") + "/pyubx2/"
 MAX_STEPS = 3_000_000
+MAX_SWITCHES = 50_000  # hand-overs per run; a 65 535-group message under p=0.2 would otherwise switch 600 000 times
 MON_TOOL = 4
 
 
@@ -162,6 +163,8 @@ class Baton:
             self.aborted = True
             raise ScheduleAbort()
         target = None
+        if len(self.recorded) >= MAX_SWITCHES:
+            return  # enough hand-overs for one run (each costs two semaphore operations): run on without pre-emption
         if self.replay is not None:
             target = self.replay.get((tid, self.opidx[tid], self.local[tid]))
         elif self.rng is not None:
